@@ -754,7 +754,8 @@ pub fn check(case: &Case, body: &BytecodeBody, der: &Derived, col: &Collect) -> 
         }
         // informational: does the documented encoding (1 opcode byte, LEB128 operands, u32 forward distance) predict the length?
         let len = (item_off[k + 1] - item_off[k]) as u64;
-        let model = crate::cgen::enc_size(it, pool_len_model) as u64 * it.rep as u64;
+        let dist_len = if it.m.shape() == Shape::JL { varint_len(d.tgt.map(|x| x.1).unwrap_or(0)) as u64 } else { 0 };
+        let model = (crate::cgen::enc_size(it, pool_len_model) as u64 + dist_len) * it.rep as u64;
         if len != model {
             size_ok = false;
         }
